@@ -105,6 +105,12 @@ def applyVirt (t : Xform) (v : VView) : VView :=
     if tr' then { px := p.1, py := p.2, sx := vloc_xy_tr_x v.sx v.sy a.sx a.sy, sy := vloc_xy_tr_y v.sx v.sy a.sx a.sy, tr := tr', w := a.dw, h := a.dh }
     else { px := p.1, py := p.2, sx := vloc_xy_id_x v.sx v.sy a.sx a.sy, sy := vloc_xy_id_y v.sx v.sy a.sx a.sy, tr := tr', w := a.dw, h := a.dh }
 
+/-- `dst = src` for virtual views / locators of the same orientation: `position_iterator::operator=` (generated) on the one iterator the
+    locator stores, plus the dimensions -/
+def VView.assign (dst src : VView) : VView :=
+  let r := pos_assign src.px src.py src.sx src.sy dst.px dst.py dst.sx dst.sy
+  { px := r.1, py := r.2.1, sx := r.2.2.1, sy := r.2.2.2, tr := src.tr, w := src.w, h := src.h }
+
 def applyVirtAll (ts : List Xform) (v : VView) : VView := ts.foldl (fun v t => applyVirt t v) v
 
 def firstAssertV : List Xform → VView → Option Nat
@@ -186,6 +192,18 @@ def DView.applyAll {α β : Type} (ts : List Xform) (d : DView α β) : DView α
     (When `DstP` *is* the source's value type `_color_converted_view_type<…,DstP,DstP>::make` returns the
     source view itself and `cc` is never called: see `colorConvertedSame`.) -/
 def colorConverted {α β γ : Type} (cc : β → γ) (d : DView α β) : DView α γ := { v := d.v, deref := cc ∘ d.deref }
+
+/-- does a transformation re-create the x-iterator with `make_step_iterator` (the stepping / transposing locator constructor)?
+    `flipped_up_down_view` (y-step constructor) and `subimage_view` keep the x-iterator -/
+def _root_.GilVerif.Geom.Xform.stepsX : Xform → Bool
+  | .flipUD => false | .sub _ _ _ _ => false | _ => true
+
+/-- the coordinate transformations **as the code applies them to a dereference-adaptor view whose adaptor is the outermost x-iterator**
+    (known finding C02-deref-adaptor-step-drops-functor): unless the tree keeps the function object (`keeps`, the generated probe
+    `deref_step_keeps_functor`), a transformation that steps in x converts the stepped base iterator back to the adaptor type and thereby
+    DEFAULT-CONSTRUCTS the function object (`dflt`) -/
+def DView.applyCode {α β : Type} (keeps : Bool) (dflt : α → β) (ts : List Xform) (d : DView α β) : DView α β :=
+  { v := applyMemAll ts d.v, deref := if keeps || !(ts.any Xform.stepsX) then d.deref else dflt }
 
 def colorConvertedSame {α β : Type} (_cc : β → β) (d : DView α β) : DView α β := d
 
